@@ -38,6 +38,8 @@ def run(ctx):
     ctx.min_instances('C09.R4', 3)
     r5(ctx)
     ctx.min_instances('C09.R5', 6)
+    r6(ctx)
+    ctx.min_instances('C09.R6', 4)
     ctx.min_instances('C09.R1', 36)
     ctx.min_instances('C09.R2', 1)
     ctx.min_instances('C09.R3', 3)
@@ -526,3 +528,61 @@ def r5(ctx):
                 found = True
         if not found:
             raise AnalysisError(q + ': boundary loop not found')
+
+
+def r6(ctx):
+    """Symmetry of the gap adjacency: in Core._find_adjacent_sc every link is
+    written in both directions, each direction under its own membership
+    guard only.  A direction whose store is additionally conditioned on the
+    OTHER direction (or on any other test of the table) can be skipped while
+    its mirror exists -- the table becomes asymmetric."""
+    fi = ctx.repo.func('core', 'Core._find_adjacent_sc')
+    tab = None
+    for a in ast.walk(fi.node):
+        if isinstance(a, ast.Return) and isinstance(a.value, ast.Name):
+            tab = a.value.id
+    if tab is None:
+        raise AnalysisError('_find_adjacent_sc: returned table')
+    keep = tuple(fi.params) + ('asm_sc', 'side', 'sci', tab, 'ai')
+    stores = []
+    for t, st in U.stores(fi.node):
+        if isinstance(t, ast.Subscript) and src(t.value) == tab and \
+                isinstance(t.slice, ast.Tuple) and len(t.slice.elts) == 2 \
+                and isinstance(st, ast.Assign):
+            row = U.value_at(fi.node, t.slice.elts[0], st.lineno, keep=keep)
+            val = U.value_at(fi.node, st.value, st.lineno, keep=keep)
+            stores.append((st, ' '.join(src(row).split()),
+                           ' '.join(src(val).split())))
+    if len(stores) < 4:
+        raise AnalysisError('_find_adjacent_sc: expected >= 4 link stores, '
+                            'found %d' % len(stores))
+    links = {}
+    for st, row, val in stores:
+        if not row.endswith(' - 1'):
+            ctx.violation('C09.R6', fi, st, 'link store row is not <cell> - 1',
+                          key='%s | row form %s' % (fi.full, row))
+            continue
+        a = row[:-4]
+        own = '%s not in %s[%s]' % (val, tab, row)
+        tests = []
+        for tst, pol in U.guards(st):
+            if tab not in {x.id for x in ast.walk(tst)
+                           if isinstance(x, ast.Name)}:
+                continue
+            e = U.value_at(fi.node, tst, tst.lineno, keep=keep)
+            tests.append((' '.join(src(e).split()), bool(pol)))
+        ok = tests == [(own, True)]
+        ctx.require(ok, 'C09.R6', fi, st,
+                    'the link %s <- %s must be written exactly when it is '
+                    'missing (`%s`); it is conditioned on %s, so it can be '
+                    'skipped while the opposite direction exists and the '
+                    'adjacency becomes one-way'
+                    % (a, val, own, [t for t, p in tests if t != own]
+                       or 'nothing'),
+                    key='%s | guard of %s <- %s' % (fi.full, a, val))
+        links[(a, val)] = st
+    for (a, b), st in links.items():
+        ctx.require((b, a) in links, 'C09.R6', fi, st,
+                    'link %s <- %s has no mirror store %s <- %s'
+                    % (a, b, b, a), key='%s | mirror of %s <- %s'
+                    % (fi.full, a, b))
